@@ -402,6 +402,95 @@ func c05Main(args []string) int {
 		rp.Close()
 		rep.Kinds = append(rep.Kinds, kr)
 	}
+	// ONS: a first-level domain record is never deleted, so its executed DOMAIN_CREATE stays refused for ever in
+	// every encoding — also after the sub domains of ANOTHER domain whose name is a string suffix of it
+	// (pay.ol / applepay.ol: records are keyed by the reversed name) were removed by the owner's
+	// DOMAIN_DELETE_SUB, or by a DOMAIN_PURCHASE of that other domain; and a sub domain survives the removal of
+	// a sibling's sub domains (b.shop.ol / ab.shop.ol)
+	if *only == "" || strings.HasPrefix(*only, "ONS") {
+		for _, flow := range []string{"ONS_CREATE_SUFFIX_DELETE_SUB", "ONS_CREATE_SUFFIX_PURCHASE", "ONS_CREATE_SUB_SUFFIX_DELETE_SUB"} {
+			w := NewWorld(3, 5, 2)
+			rp := NewReplica(w.Genesis(), ReplicaOpts{NodeVal: w.Vals[0].Val})
+			rp.InitChain()
+			GAS = 1000000
+			n := 0
+			memo := func() string { n++; return fmt.Sprintf("c05ons%d", n) }
+			blk := func(what string, txs ...[]byte) {
+				res := rp.RunBlock(&BlockIn{Txs: txs, Absent: map[int]bool{}})
+				for i, t := range res.Txs {
+					if t.Code != 0 {
+						panic(fmt.Sprintf("c05 ons flow %s: %s: transaction %d refused: %s", flow, what, i, t.Log))
+					}
+				}
+			}
+			u0, u1, u2 := w.Users[0], w.Users[1], w.Users[2]
+			price := oltAmt("1002000000000000000000")
+			blk("warm-up")
+			blk("warm-up")
+			var base []byte
+			in := &BlockIn{Absent: map[int]bool{}}
+			first := func(others ...[]byte) c05Kind {
+				kr := c05Kind{Kind: flow, Base: hx(base)}
+				rp.BeginBlock(in)
+				v0 := rp.View()
+				res := rp.DeliverTx(base)
+				kr.BaseCode = res.Code
+				kr.BaseEffect = len(diffKeys(v0, rp.View())) > 0
+				for _, o := range others {
+					if r2 := rp.DeliverTx(o); r2.Code != 0 {
+						panic("c05 ons flow " + flow + ": set-up refused: " + r2.Log)
+					}
+				}
+				rp.EndBlock()
+				rp.Commit()
+				if res.Code != 0 {
+					panic("c05 ons flow " + flow + ": base refused: " + res.Log)
+				}
+				return kr
+			}
+			var kr c05Kind
+			switch flow {
+			case "ONS_CREATE_SUFFIX_DELETE_SUB":
+				base = txDomainCreate(u0, "applepay.ol", price, memo())
+				kr = first(txDomainCreate(u1, "pay.ol", price, memo()))
+				blk("subs", txDomainCreate(u0, "x.applepay.ol", price, memo()), txDomainCreate(u1, "s.pay.ol", price, memo()))
+				blk("quiet")
+				blk("delete subs of pay.ol", txDomainDeleteSub(u1, "pay.ol", memo()))
+			case "ONS_CREATE_SUFFIX_PURCHASE":
+				base = txDomainCreate(u0, "applepay.ol", price, memo())
+				kr = first(txDomainCreate(u1, "pay.ol", price, memo()))
+				blk("subs", txDomainCreate(u1, "s.pay.ol", price, memo()))
+				blk("sell", txDomainSell(u1, "pay.ol", oltAmt("5000000000000000000"), false, memo()))
+				blk("purchase", txDomainPurchase(u2, "pay.ol", oltAmt("5000000000000000000"), memo()))
+			case "ONS_CREATE_SUB_SUFFIX_DELETE_SUB":
+				blk("parent", txDomainCreate(u0, "shop.ol", price, memo()))
+				base = txDomainCreate(u0, "ab.shop.ol", price, memo())
+				kr = first(txDomainCreate(u0, "b.shop.ol", price, memo()))
+				blk("quiet")
+				blk("delete sub b.shop.ol", txDomainDeleteSub(u0, "b.shop.ol", memo()))
+			}
+			blk("quiet")
+			subs := append([]labMutant{{"identical", "same", base}}, reencodings(base, r)...)
+			rp.BeginBlock(in)
+			for _, sb := range subs {
+				c := rp.CheckTx(sb.Tx)
+				va := rp.View()
+				d := rp.DeliverTx(sb.Tx)
+				ch := diffKeys(va, rp.View())
+				sr := c05Sub{Name: sb.Name, SameParsed: sameParsed(sb.Tx, base), CheckCode: c.Code, CheckDup: strings.Contains(c.Log, "duplicated tx"),
+					Deliver: d.Code, Effect: len(ch) > 0, Tx: hx(sb.Tx)}
+				if len(ch) > 6 {
+					ch = ch[:6]
+				}
+				sr.Changed = ch
+				kr.Subs = append(kr.Subs, sr)
+			}
+			rp.EndBlock()
+			rp.Commit()
+			rp.Close()
+			rep.Kinds = append(rep.Kinds, kr)
+		}
+	}
 	b.WriteString("\n].\nDefinition MM := Eval vm_compute in replay_mismatches 0 cases.\nPrint MM.\n")
 	name := *outDir + "/c05_cases_0.v"
 	must(os.WriteFile(name, b.Bytes(), 0644))
